@@ -15,7 +15,13 @@ The driver performs MPI_Cart_create / Cart_get / Cartdim_get / Cart_coords / Car
 The topology inquiries are guarded: a SIGFPE raised inside one call (division by a zero dimension) is recorded as the result of that call
 (sigsetjmp/siglongjmp in the driver) and the batch goes on; any other death of the process is isolated by the batch runner.
 
-MUTATIONS
+Mutation evidence (tools/mutbuild.sh worktree, quick tier, one mutation at a time; all gave exit 1 with a VIOLATION line):
+  * Topo_Cart::shift computes the source with +disp instead of -disp                 -> caught, C33:cart_shift:(non)periodic:* and C33:cart_sub:all-kept:shift
+  * Topo_Cart::rank does not bring a negative coordinate back into 0..dim-1           -> caught, C33:cart_rank:wrapped-negative, C33:cart_shift:periodic:beyond
+  * assignnodes (Dims_create) skips the largest prime factor of the free part         -> caught, C33:dims_create:product (verdict of MpiCartVal), and the
+    out-of-range iterator of the mutant kills some runs, which the batch runner isolates (C33:dims_create:crash)
+  * (mutation made for C32) Comm::split without its sort                              -> caught here as well, C33:cart_sub:*:comm
+  Fix validation: with fix-C33-cart-sub-topology.diff and fix-C33-dims-create-divisibility.diff applied the check exits 0 with no KNOWN-FINDING line.
 """
 import json, os, threading
 import vlib
